@@ -15,6 +15,10 @@ CHECKS = {
     "reshard.per_destination_counter": r"se\.send\(\*record_id, val\)\s*\.await\s*\.map_err\(crate::error::Error::from\)\?;\s*\*record_id \+= 1;",
     # explicit close of every channel at the end of the input
     "reshard.close_all": r"for \(last_record, send_channel\) in send_channels\.values\(\) \{\s*send_channel\.close\(\*last_record\)\.await;",
+    # channels are limited to one record ABOVE the size hint, so they never close by record count (a channel
+    # closes on its own at its limit): only the explicit close at the end of an error-free input ends them
+    "reshard.channel_limit_above_hint": r"let ctx = ctx\.set_total_records\(TotalRecords::specified\(input_len\.saturating_add\(1\)\)\?\);",
+    "reshard.no_close_on_error_path": r"\} else \{\s*for \(last_record, send_channel\) in send_channels\.values\(\) \{\s*send_channel\.close\(\*last_record\)\.await;\s*\}\s*Ok\(None\)\s*\}",
     # size-hint guard and error propagation
     "reshard.hint_guard": r"if usize::try_from\(\*i\)\.unwrap\(\) >= input_len \{\s*return Err\(crate::error::Error::RecordIdOutOfRange",
     "reshard.input_error_propagates": r"if let Some\(val\) = input\.try_next\(\)\.await\? \{",
